@@ -3,13 +3,13 @@ package main
 // Canonicalisation of a logged C17 trace: goroutine ids -> thread ids by role, object ids -> variables /
 // synchronisation objects in the encoding of lean/DastardV/Model/C17.lean (`mkSpec`).
 //
-//   thread  = kind*1000000 + b*100 + i      kinds: 0 R (control client)  1 L (core loop)  2 P (producer / reader)
+//   thread  = (b*n + i)*16 + kind           kinds: 0 R (control client)  1 L (core loop)  2 P (producer / reader)
 //             3 S (status thread)  4 A (block assembly, b)  5 AW (assembly worker b,i)
 //             6 W1a 7 W1b (first-wave worker b,i; a = before L took its first request, b = after)
 //             8 W2a 9 W2b (second wave)  10 AR (archive writer j)  11 other
-//   var     = class*1000000 + idx           classes: 1 nfn 2 etq 3 blk 4 seg 5 arch 6 afill 7 pst 8 ptrig 9 bcon
+//   var     = idx*16 + class                classes: 1 nfn 2 etq 3 blk 4 seg 5 arch 6 afill 7 pst 8 ptrig 9 bcon
 //             10 trs 11 wsa 12 wsc 13 vip 14 bst
-//   object  = class*1000000 + idx           classes: 1 nb 2 bufc 3 qreq 4 qres 5 cm 6 cmpl 7 fl 8 wsm 9 cfg 10 wga
+//   object  = idx*16 + class                classes: 1 nb 2 bufc 3 qreq 4 qres 5 cm 6 cmpl 7 fl 8 wsm 9 cfg 10 wga
 //             11 wgp 12 rund 13 abort
 //
 // Sources whose blocks are built while the previous one is still being processed (tri, sim: the producer does not
@@ -26,7 +26,7 @@ import (
 	"github.com/usnistgov/dastard"
 )
 
-const c17M = 1000000
+func c17Enc(cls, idx int) int { return idx*16 + cls }
 
 var c17Var = map[string]int{"nfn": 1, "etq": 2, "blk": 3, "seg": 4, "arch": 5, "afill": 6, "pst": 7, "ptrig": 8, "bcon": 9,
 	"trs": 10, "wsa": 11, "wsc": 12, "vip": 13, "bst": 14}
@@ -101,7 +101,7 @@ func c17Canon(tr []dastard.VerifEvent, sum string, cfg c17Cfg) string {
 	tid := map[uint64]int{rgid: 0}
 	for _, e := range evs { // the status thread: receives client messages / saves the configuration
 		if e.gid != rgid && ((e.name == "cm" && e.kind == "recv") || (e.name == "cfg" && e.kind == "lock")) {
-			tid[e.gid] = 3 * c17M
+			tid[e.gid] = c17Enc(3, 0)
 			break
 		}
 	}
@@ -111,7 +111,7 @@ func c17Canon(tr []dastard.VerifEvent, sum string, cfg c17Cfg) string {
 			return t
 		}
 		other++
-		tid[g] = 11*c17M + other
+		tid[g] = c17Enc(11, other)
 		return tid[g]
 	}
 	dspIdx := map[int]int{}
@@ -154,6 +154,15 @@ func c17Canon(tr []dastard.VerifEvent, sum string, cfg c17Cfg) string {
 	var out []int
 	emit := func(t, ev, arg int) { out = append(out, t, ev, arg) }
 	nchan := 0
+	{
+		seen := map[int]bool{}
+		for _, e := range evs {
+			if e.name == "pst" || e.name == "ptrig" || e.name == "w1" || e.name == "w2" {
+				seen[e.id] = true
+			}
+		}
+		nchan = len(seen)
+	}
 	for _, e := range evs {
 		if e.kind == "rd" || e.kind == "wr" {
 			cls, ok := c17Var[e.name]
@@ -174,7 +183,7 @@ func c17Canon(tr []dastard.VerifEvent, sum string, cfg c17Cfg) string {
 				v := seg(e.id)
 				idx = v[1]
 				if !merged {
-					idx = (v[0]+1)*100 + v[1]
+					idx = (v[0]+1)*nchan + v[1]
 				}
 			case "afill":
 				idx = first(afIdx, e.id)
@@ -182,11 +191,8 @@ func c17Canon(tr []dastard.VerifEvent, sum string, cfg c17Cfg) string {
 				idx = first(trsIdx, e.id)
 			case "pst", "ptrig":
 				idx = dsp(e.id)
-				if idx+1 > nchan {
-					nchan = idx + 1
-				}
 			}
-			emit(tidOf(e.gid), c17Ev[e.kind], cls*c17M+idx)
+			emit(tidOf(e.gid), c17Ev[e.kind], c17Enc(cls, idx))
 			continue
 		}
 		switch e.kind {
@@ -202,13 +208,13 @@ func c17Canon(tr []dastard.VerifEvent, sum string, cfg c17Cfg) string {
 			ct := 0
 			switch e.name {
 			case "loop":
-				ct = 1 * c17M
+				ct = c17Enc(1, 0)
 				lgid = child
 			case "prod":
-				ct = 2 * c17M
+				ct = c17Enc(2, 0)
 				pgid = child
 			case "asm":
-				ct = 4*c17M + asmCount*100
+				ct = c17Enc(4, asmCount*nchan)
 				asmOf[child] = asmCount
 				asmCount++
 			case "asmw":
@@ -216,7 +222,7 @@ func c17Canon(tr []dastard.VerifEvent, sum string, cfg c17Cfg) string {
 				i := asmwN[e.gid]
 				asmwN[e.gid]++
 				seg(e.id)
-				ct = 5*c17M + b*100 + i
+				ct = c17Enc(5, b*nchan+i)
 			case "w1", "w2":
 				kind := 6
 				if e.name == "w2" {
@@ -226,16 +232,13 @@ func c17Canon(tr []dastard.VerifEvent, sum string, cfg c17Cfg) string {
 					kind++
 				}
 				i := dsp(e.id)
-				if i+1 > nchan {
-					nchan = i + 1
-				}
-				ct = kind*c17M + (lRecvNb-1)*100 + i
+				ct = c17Enc(kind, (lRecvNb-1)*nchan+i)
 			case "arw":
-				ct = 10*c17M + first(cmplIdx, e.id)
+				ct = c17Enc(10, first(cmplIdx, e.id))
 				arCount++
 			default:
 				other++
-				ct = 11*c17M + other
+				ct = c17Enc(11, other)
 			}
 			if child != 0 {
 				tid[child] = ct
@@ -290,7 +293,7 @@ func c17Canon(tr []dastard.VerifEvent, sum string, cfg c17Cfg) string {
 				wgpEpoch[e.id] = 0
 			}
 		}
-		emit(t, c17Ev[e.kind], cls*c17M+idx)
+		emit(t, c17Ev[e.kind], c17Enc(cls, idx))
 	}
 	var sb strings.Builder
 	fmt.Fprintf(&sb, "n %d nblk %d ntrs %d narch %d merged %d EVS %d", nchan, len(blkIdx), len(trsIdx), len(cmplIdx), b2i(merged), len(out)/3)
